@@ -1188,9 +1188,15 @@ class Polygon2D(Base2DIn2D):
         pt_rels1 = [self.point_relationship(pt, tolerance) for pt in polygon]
         pt_rels2 = [polygon.point_relationship(pt, tolerance) for pt in self]
         if all(r1 >= 0 for r1 in pt_rels1) and all(r2 <= 0 for r2 in pt_rels2):
-            poi = polygon._point_in_polygon(tolerance)
-            if self.is_point_inside(poi) == 1:
-                return 1  # definitely inside the polygon
+            # an edge can still leave this polygon between two vertices that lie
+            # on its boundary (e.g. across a notch), so check the edge midpoints
+            if all(self.point_relationship(s.midpoint, tolerance) >= 0
+                   for s in polygon.segments) and \
+                    all(polygon.point_relationship(s.midpoint, tolerance) <= 0
+                        for s in self.segments):
+                poi = polygon._point_in_polygon(tolerance)
+                if self.is_point_inside(poi) == 1:
+                    return 1  # definitely inside the polygon
         if 1 in pt_rels1 or 1 in pt_rels2:
             return 0  # definitely overlap in the polygons
         if all(r2 == 0 for r2 in pt_rels2):
